@@ -25,6 +25,10 @@ type Clause struct {
 type LoopSpec struct {
 	Invariants []*Clause
 	ModifiesNo bool
+	// Staged: the preservation of invariant k is proved from invariants 1..k
+	// only (fewer hypotheses - sound); lets a quantifier-heavy invariant be
+	// put last so that it does not disturb the proofs of the others.
+	Staged bool
 }
 
 type FuncSpec struct {
@@ -645,6 +649,17 @@ func parseFuncSub(fs *FuncSpec, d rawDirective, path string) error {
 		}
 	case "loop":
 		f := strings.Fields(d.text)
+		if len(f) == 2 && f[1] == "staged" {
+			n, err := strconv.Atoi(f[0])
+			if err != nil {
+				return fmt.Errorf("%s: loop ordinal: %v", where, err)
+			}
+			if fs.Loops[n] == nil {
+				fs.Loops[n] = &LoopSpec{}
+			}
+			fs.Loops[n].Staged = true
+			break
+		}
 		if len(f) < 3 {
 			return fmt.Errorf("%s: loop <n> invariant <expr>", where)
 		}
